@@ -463,6 +463,14 @@ impl WorkerState for W {
             let src = "filtermap fm(x: i32) {\n    accept x\n}\nfn g() -> Verdict[i32, String] {\n    fm(1)\n}\n";
             let mut pkg = match host::compile(&self.rt, src) {
                 Ok(p) => p,
+                Err(e) if e.starts_with("Error: Type error") => {
+                    // the caller is refused: it uses the reject side at a type the filtermap does not have
+                    let mut o = Outcome::pass();
+                    o.nontrivial = true;
+                    o.classes.push("pinning-caller-refused".into());
+                    o.render = Some(src.to_string());
+                    return o;
+                }
                 Err(e) => return Outcome::fail("literal:rejected", e),
             };
             let unit = pkg.get_function::<fn(i32) -> roto::Verdict<i32, ()>>("fm").is_ok();
@@ -507,6 +515,15 @@ impl WorkerState for W {
         }
         let mut pkg = match compiled {
             Ok(p) => p,
+            Err(e) if fns.iter().any(|f| f.pinned) && e.starts_with("Error: Type error") => {
+                // a caller that uses a filtermap's unused side at a concrete type is ill-typed (the side is ());
+                // refusing the script is the other way of keeping the filtermap's type what the property says
+                let mut o = Outcome::pass();
+                o.nontrivial = true;
+                o.classes.push("pinning-caller-refused".into());
+                o.hash = fnv(src.as_bytes());
+                return o;
+            }
             Err(e) => return Outcome::discard(format!("generated signatures rejected by the compiler:\n{e}\n--- source ---\n{src}")),
         };
         let mut o = Outcome::pass();
